@@ -1,3 +1,161 @@
 import Usual.Common
-/-! Model driver for C04 (stub: not built yet). -/
-def main : IO Unit := IO.println "stub"
+import Usual.C04.Regex
+import Usual.C04.Parse
+/-! Model driver for C04 (line protocol of harness/C04/h.c).
+
+  x <cflags> <pattern-hex> <nm,..> <ef,..> <subject-hex>...   compile + all execs
+  p <cflags> <pattern-hex> <nmatch> <eflags> <subject-hex>    one exec, overall match only
+  k <len> <nsub> so,eo so,eo ...                              `pmatchOk` on an implementation answer
+  t <E|B> <icase> <tree> <pattern-hex>                        render the tree, compare with the text,
+                                                              parse the text, compare with the folded tree
+-/
+open Usual Usual.C04
+
+def splitComma (s : String) : List String := (s.splitOn ",").filter (· ≠ "")
+
+def mkEnv (cflags ef : Nat) (subj : List UInt8) : Env :=
+  { s := subj.toArray, icase := cflags.testBit 1, newline := cflags.testBit 3,
+    notbol := ef.testBit 4, noteol := ef.testBit 5 }
+
+/-- nmatch spec: integer, `n` = nsub+1, `m` = nsub+2 -/
+def nmOf (nsub : Nat) (s : String) : Option Nat :=
+  if s == "n" then some (nsub + 1) else if s == "m" then some (nsub + 2) else s.toNat?
+
+def tokOf (nosub : Bool) (nm : Nat) (res : Option (Nat × Nat)) : String :=
+  match res with
+  | none => "-"
+  | some (i, j) => if nm == 0 || nosub then "+" else s!"{i},{j}"
+
+def compileLine (cflagsS patS : String) : Option (Nat × Except Code (Re × Nat)) := do
+  let cflags ← cflagsS.toNat?
+  if cflags > 15 then none
+  let pat ← parseHex patS
+  if pat.contains 0 then none
+  some (cflags, compile cflags pat)
+
+def doX (w : List String) : String :=
+  match w with
+  | cflagsS :: patS :: nmS :: efS :: subjs =>
+    if subjs.isEmpty then "bad-op" else
+    match compileLine cflagsS patS with
+    | none => "bad-op"
+    | some (cflags, res) =>
+      let nms := splitComma nmS
+      let efs := (splitComma efS).map String.toNat?
+      if nms.isEmpty || efs.isEmpty || efs.any (fun e => match e with | some v => v &&& 48 != v | none => true) then "bad-op"
+      else
+      match res with
+      | .error .unsupported => "unsup"
+      | .error c => s!"err ## code={c.num}"
+      | .ok (r, nsub) =>
+        if nms.any (fun s => (nmOf nsub s).isNone) then "bad-op" else
+        let nosub := cflags.testBit 2
+        let toks := subjs.flatMap fun sh =>
+          match parseHex sh with
+          | none => ["bad-subject"]
+          | some sb =>
+            if sb.contains 0 then ["bad-subject"] else
+            efs.flatMap fun ef =>
+              let res := llmatch (mkEnv cflags (ef.getD 0) sb) r
+              nms.map fun nmS => tokOf nosub ((nmOf nsub nmS).getD 0) res
+        s!"ok nsub={nsub} " ++ " ".intercalate toks
+  | _ => "bad-op"
+
+def doP (w : List String) : String :=
+  match w with
+  | [cflagsS, patS, nmS, efS, subjS] =>
+    match compileLine cflagsS patS, nmS.toNat?, efS.toNat?, parseHex subjS with
+    | some (cflags, res), some nm, some ef, some sb =>
+      if sb.contains 0 || ef &&& 48 != ef then "bad-op" else
+      match res with
+      | .error .unsupported => "unsup"
+      | .error c => s!"err ## code={c.num}"
+      | .ok (r, nsub) =>
+        match llmatch (mkEnv cflags ef sb) r with
+        | none => s!"ok nsub={nsub} NOMATCH"
+        | some (i, j) =>
+          if nm == 0 || cflags.testBit 2 then s!"ok nsub={nsub} NULL" else s!"ok nsub={nsub} ({i},{j})"
+    | _, _, _, _ => "bad-op"
+  | _ => "bad-op"
+
+def parsePair (s : String) : Option (Int × Int) :=
+  match s.splitOn "," with
+  | [a, b] => do
+    let x ← a.toInt?
+    let y ← b.toInt?
+    some (x, y)
+  | _ => none
+
+def doK (w : List String) : String :=
+  match w with
+  | lenS :: nsubS :: pairs =>
+    match lenS.toNat?, nsubS.toNat?, pairs.mapM parsePair with
+    | some len, some nsub, some pm => if pmatchOk len nsub pm then "ok" else "bad"
+    | _, _, _ => "bad-op"
+  | _ => "bad-op"
+
+/-! tree syntax (prefix, comma separated):  `e` empty, `c<hex2>` literal, `.` any, `^` bol, `$` eol,
+`C` a, b  cat, `A` a, b  alt, `R<m>-<n|i>` r  repetition, `G` r  group -/
+def parseTree : Nat → List String → Option (Re × List String)
+  | 0, _ => none
+  | _, [] => none
+  | fuel + 1, t :: rest =>
+    if t == "e" then some (.empty, rest)
+    else if t == "." then some (.any, rest)
+    else if t == "^" then some (.bol, rest)
+    else if t == "$" then some (.eol, rest)
+    else if t == "C" then do
+      let (a, r1) ← parseTree fuel rest
+      let (b, r2) ← parseTree fuel r1
+      some (.cat a b, r2)
+    else if t == "A" then do
+      let (a, r1) ← parseTree fuel rest
+      let (b, r2) ← parseTree fuel r1
+      some (.alt a b, r2)
+    else if t == "G" then do
+      let (a, r1) ← parseTree fuel rest
+      some (.group a, r1)
+    else if t.startsWith "c" then
+      match parseHex (t.drop 1).toString with
+      | some [b] => some (.chr b, rest)
+      | _ => none
+    else if t.startsWith "R" then
+      match (t.drop 1).toString.splitOn "-" with
+      | [ms, ns] => do
+        let m ← ms.toNat?
+        let n ← if ns == "i" then some none else ns.toNat?.map some
+        let (a, r1) ← parseTree fuel rest
+        some (.rep a m n, r1)
+      | _ => none
+    else none
+
+def doT (w : List String) : String :=
+  match w with
+  | [mode, icS, treeS, patS] =>
+    let toks := splitComma treeS
+    match parseTree (toks.length + 1) toks, parseHex patS with
+    | some (r, []), some pat =>
+      let fl : PFlags := { icase := icS == "1" }
+      let ere := mode == "E"
+      let txt := if ere then renderERE r else renderBRE r
+      let wf := if ere then wfE r else false
+      let same := txt == pat
+      let back := if ere then parseERE fl pat else parseBRE fl pat
+      let rt := match back with
+        | .ok (r', nsub) => r' == foldRe fl r && nsub == r.groups
+        | .error _ => false
+      s!"wf={wf} text={same} rt={rt}"
+    | _, _ => "bad-op"
+  | _ => "bad-op"
+
+def step (_ : Unit) (line : String) : Unit × String :=
+  let l := line.trimAscii.toString
+  if l == "#case" then ((), "#case") else
+  match words l with
+  | "x" :: w => ((), doX w)
+  | "p" :: w => ((), doP w)
+  | "k" :: w => ((), doK w)
+  | "t" :: w => ((), doT w)
+  | _ => ((), "bad-op")
+
+def main : IO Unit := runDriver () step
